@@ -100,6 +100,11 @@ pub enum Stmt {
     Release(String),
     CreateIndex { t: usize, k: usize },
     DropIndex { t: usize, k: usize },
+    /// REPLACE INTO t VALUES ...: executed on the engine only (no model of its effect); the
+    /// invariants (constraints, index mirror) are checked afterwards and the model re-reads the state
+    Replace { t: usize, rows: Vec<Vec<V>> },
+    /// INSERT INTO t VALUES ... ON DUPLICATE KEY UPDATE col = literal (same treatment)
+    Upsert { t: usize, rows: Vec<Vec<V>>, set: (usize, V) },
 }
 
 pub fn stmt_sql(s: &Stmt, specs: &[TSpec]) -> String {
@@ -129,6 +134,8 @@ pub fn stmt_sql(s: &Stmt, specs: &[TSpec]) -> String {
         Stmt::Savepoint(n) => format!("SAVEPOINT {}", n),
         Stmt::RollbackTo(n) => format!("ROLLBACK TO SAVEPOINT {}", n),
         Stmt::Release(n) => format!("RELEASE SAVEPOINT {}", n),
+        Stmt::Replace { t, rows } => vcore::sql::ir::insert_sql(&specs[*t].name, None, rows, Dialect::Vibe).replacen("INSERT INTO", "REPLACE INTO", 1),
+        Stmt::Upsert { t, rows, set } => format!("{} ON DUPLICATE KEY UPDATE {} = {}", vcore::sql::ir::insert_sql(&specs[*t].name, None, rows, Dialect::Vibe), specs[*t].cols[set.0].0, vcore::sql::ir::bare_lit(&set.1, Dialect::Vibe)),
         Stmt::CreateIndex { t, k } => specs[*t].index_sql(*k),
         Stmt::DropIndex { t, k } => format!("DROP INDEX {}", specs[*t].indexes[*k].0),
     }
@@ -446,7 +453,8 @@ pub fn index_mirror(db: &vibesql_storage::Database, specs: &[TSpec], live_idx: &
         if let Some(t) = rebuilt.get_table_mut(&s.name) {
             t.rebuild_indexes();
         }
-        rebuilt.rebuild_indexes(&s.name);
+        // the registry keys indexes by the table name as the parser wrote it (upper-cased)
+        rebuilt.rebuild_indexes(&s.name.to_uppercase());
     }
     for (ti, s) in specs.iter().enumerate() {
         let (Some(a), Some(b)) = (db.get_table(&s.name), rebuilt.get_table(&s.name)) else { continue };
@@ -505,6 +513,10 @@ pub struct DmlCfg {
     pub inline_fk: bool,
     /// allow ON DELETE/UPDATE SET NULL on a NOT NULL child column (the action can then only fail)
     pub setnull_on_notnull: bool,
+    /// generate REPLACE INTO (checked by invariants only)
+    pub replace: bool,
+    /// generate INSERT .. ON DUPLICATE KEY UPDATE (checked by invariants only)
+    pub odku: bool,
 }
 
 const WORDS: &[&str] = &["a", "b", "ab", "", "A", "c"];
@@ -630,6 +642,24 @@ pub fn gen_stmt(t: &mut Tape, specs: &[TSpec], state: &[Rows], c: &DmlCfg, next_
     let ti = t.below(specs.len());
     let s = &specs[ti];
     let ncols = s.cols.len();
+    if (c.replace || c.odku) && s.fks.is_empty() && !specs.iter().any(|x| x.fks.iter().any(|f| f.parent == ti)) && t.chance(1, 7) {
+        let n = *t.pick(&[1usize, 1, 2, 3]);
+        let mut rows = Vec::new();
+        for _ in 0..n {
+            let mut r = gen_row(t, specs, state, ti, next_key);
+            // collide with an existing key half of the time
+            if !state[ti].is_empty() && t.chance(1, 2) {
+                r[0] = state[ti][t.below(state[ti].len())][0].clone();
+            }
+            rows.push(r);
+        }
+        if c.replace && (!c.odku || t.chance(1, 2)) {
+            return Stmt::Replace { t: ti, rows };
+        }
+        let col = t.range(if ncols > 1 { 1 } else { 0 }, ncols as i64 - 1) as usize;
+        let v = gen_v(t, &s.cols[col].1, !s.not_null[col] && !s.pk.contains(&col));
+        return Stmt::Upsert { t: ti, rows, set: (col, v) };
+    }
     match t.weighted(&[5, 4, 3, 1, 1]) {
         0 => {
             let n = *t.pick(&[1usize, 1, 2, 3, 5]);
